@@ -18,9 +18,40 @@
 //! monitoring, linking, and message passing.
 
 use crate::errors::{Error, Result};
-use erltf::OwnedTerm;
+use erltf::{BigInt, OwnedTerm, Sign};
 use std::convert::TryFrom;
 use std::mem;
+
+/// The id of UNLINK_ID / UNLINK_ID_ACK is an unsigned 64-bit integer; values above
+/// `i64::MAX` only fit a big integer.
+fn unlink_id_to_term(id: u64) -> OwnedTerm {
+    match i64::try_from(id) {
+        Ok(small) => OwnedTerm::Integer(small),
+        Err(_) => OwnedTerm::BigInt(BigInt::new(Sign::Positive, id.to_le_bytes().to_vec())),
+    }
+}
+
+fn unlink_id_from_term(term: &OwnedTerm) -> Option<u64> {
+    match term {
+        OwnedTerm::Integer(i) => u64::try_from(*i).ok(),
+        OwnedTerm::BigInt(big) => {
+            let significant = big
+                .digits
+                .iter()
+                .rposition(|&d| d != 0)
+                .map_or(0, |pos| pos + 1);
+            if significant > 8 || (big.sign.is_negative() && significant != 0) {
+                return None;
+            }
+            let mut id = 0u64;
+            for (i, &d) in big.digits.iter().take(significant).enumerate() {
+                id |= (d as u64) << (i * 8);
+            }
+            Some(id)
+        }
+        _ => None,
+    }
+}
 
 /// Control message types (first element of control tuple)
 #[derive(Debug, Clone, Copy, PartialEq, Eq)]
@@ -376,38 +407,30 @@ impl ControlMessage {
             }),
 
             Some(ControlMessageType::UnlinkId) if elements.len() == 4 => {
-                let id_raw = elements[1].as_integer().ok_or_else(|| {
-                    Error::InvalidControlMessage("UNLINK_ID id must be an integer".to_string())
+                let id = unlink_id_from_term(&elements[1]).ok_or_else(|| {
+                    Error::InvalidControlMessage(
+                        "UNLINK_ID id must be a non-negative integer of at most 64 bits"
+                            .to_string(),
+                    )
                 })?;
 
-                if id_raw < 0 {
-                    return Err(Error::InvalidControlMessage(format!(
-                        "UNLINK_ID id must be non-negative: {}",
-                        id_raw
-                    )));
-                }
-
                 Ok(ControlMessage::UnlinkId {
-                    id: id_raw as u64,
+                    id,
                     from_pid: elements[2].clone(),
                     to_pid: elements[3].clone(),
                 })
             }
 
             Some(ControlMessageType::UnlinkIdAck) if elements.len() == 4 => {
-                let id_raw = elements[1].as_integer().ok_or_else(|| {
-                    Error::InvalidControlMessage("UNLINK_ID_ACK id must be an integer".to_string())
+                let id = unlink_id_from_term(&elements[1]).ok_or_else(|| {
+                    Error::InvalidControlMessage(
+                        "UNLINK_ID_ACK id must be a non-negative integer of at most 64 bits"
+                            .to_string(),
+                    )
                 })?;
 
-                if id_raw < 0 {
-                    return Err(Error::InvalidControlMessage(format!(
-                        "UNLINK_ID_ACK id must be non-negative: {}",
-                        id_raw
-                    )));
-                }
-
                 Ok(ControlMessage::UnlinkIdAck {
-                    id: id_raw as u64,
+                    id,
                     from_pid: elements[2].clone(),
                     to_pid: elements[3].clone(),
                 })
@@ -648,7 +671,7 @@ impl ControlMessage {
                 to_pid,
             } => OwnedTerm::Tuple(vec![
                 OwnedTerm::Integer(ControlMessageType::UnlinkId as i64),
-                OwnedTerm::Integer(*id as i64),
+                unlink_id_to_term(*id),
                 from_pid.clone(),
                 to_pid.clone(),
             ]),
@@ -659,7 +682,7 @@ impl ControlMessage {
                 to_pid,
             } => OwnedTerm::Tuple(vec![
                 OwnedTerm::Integer(ControlMessageType::UnlinkIdAck as i64),
-                OwnedTerm::Integer(*id as i64),
+                unlink_id_to_term(*id),
                 from_pid.clone(),
                 to_pid.clone(),
             ]),
@@ -973,7 +996,7 @@ impl ControlMessage {
                 to_pid,
             } => OwnedTerm::Tuple(vec![
                 OwnedTerm::Integer(ControlMessageType::UnlinkId as i64),
-                OwnedTerm::Integer(id as i64),
+                unlink_id_to_term(id),
                 from_pid,
                 to_pid,
             ]),
@@ -984,7 +1007,7 @@ impl ControlMessage {
                 to_pid,
             } => OwnedTerm::Tuple(vec![
                 OwnedTerm::Integer(ControlMessageType::UnlinkIdAck as i64),
-                OwnedTerm::Integer(id as i64),
+                unlink_id_to_term(id),
                 from_pid,
                 to_pid,
             ]),
